@@ -443,6 +443,26 @@ impl HotTier {
         self.knn_search_with_cancel(query, k, None)
     }
 
+    /// Distance between `query` and `embedding`, computed exactly as the k-NN scan computes it for
+    /// a mirrored document.
+    pub fn distance_to(&self, query: &[f32], embedding: &[f32]) -> f32 {
+        match self.distance {
+            DistanceMetric::Cosine => Self::cosine_distance_with_cached_norm(
+                query,
+                Self::l2_norm(query),
+                embedding,
+                Self::l2_norm(embedding),
+            ),
+            DistanceMetric::Euclidean => Self::l2_distance(query, embedding),
+            DistanceMetric::InnerProduct => Self::dot_distance_with_cached_norm(
+                query,
+                Self::l2_norm(query),
+                embedding,
+                Self::l2_norm(embedding),
+            ),
+        }
+    }
+
     /// k-NN search over hot tier documents with optional cancellation.
     pub fn knn_search_with_cancel(
         &self,
